@@ -457,9 +457,9 @@ func init() {
 			"evaluations = histories; faults_injected counts the faulted executions; distinct = hash(config, ops); non-trivial = >=200 faults injected in the case incl. >=1 write operation.",
 		Assumptions: []string{"faults are injected at the corestore interface (the seam the property is stated on); a failed batch Write applies nothing", "operations without an error result (IterateRange, Hash, VersionExists, AvailableVersions) are outside the statement"},
 		Run: func(c *fw.Ctx) {
-			w := map[string]int{"set": 40, "rm": 12, "save": 24, "rollback": 2, "reopen": 4, "load": 0, "delto": 6, "lfo": 2, "delfrom": 0}
+			w := map[string]int{"set": 40, "rm": 12, "save": 24, "rollback": 2, "reopen": 4, "load": 0, "delto": 6, "lfo": 5, "delfrom": 0}
 			p := &v1x.GenParams{MinOps: 10, MaxOps: 36, W: w, MaxKeys: 8, InvalidPct: 0, Backends: []string{"mem"}, Initials: []int64{0, 0, 1, 5},
-				BigValues: true, Flushes: []int{150, 300, 0, 0}, Caches: []int{0, 0, 3}}
+				BigValues: true, Flushes: []int{1, 150, 300, 0, 0}, Caches: []int{0, 0, 3}} // (flush threshold 1: every queued write is its own physical write)
 			pl := v1x.MakePlan(c.Rng, p)
 			c.Res.Digest = fw.DigestOf(pl.Cfg, pl.Summary(1000))
 			if c.Index < 2 {
